@@ -45,14 +45,12 @@ Theorem C11_no_panic_refuted_key_list :
     ((0, 2, EConn) :: repeat (5, 2, ENet (Some (MKeyList 1))) 101) = Panic site_keylist st'.
 Proof. eexists. vm_compute. reflexivity. Qed.
 
-Theorem C11_no_panic_refuted_golden_ticket :
-  exists st', run (init false false true)
-    [(0, 2, EConn); (1, 2, ENet (Some (MResponse true true 3))); (2, 2, ENet (Some (MTx 2 0 true)))] = Panic site_gt_len st'.
-Proof. eexists. vm_compute. reflexivity. Qed.
-
-(* a valid handshake response under ANOTHER key on an entry that has a key used to be a sixth witness (assert_eq!
-   in Peer::handle_handshake_response, finding assert-key-changed-panic of C17); since fix ae2aeaa the response is
-   rejected and the sender disconnected -- the model follows the repaired code *)
+(* two further witnesses existed on the pinned tree and are gone with the repairs the model follows:
+   a verified GoldenTicket-typed transaction with a payload that is not 97 bytes (assert in
+   GoldenTicket::deserialize_from_net at pool intake; since fix eeb4ec7 such a transaction does not decode), and a
+   valid handshake response under ANOTHER key on an entry that has a key (assert_eq! in
+   Peer::handle_handshake_response, C17's assert-key-changed-panic; since fix ae2aeaa it is rejected and the sender
+   disconnected) *)
 Example C11_key_change_is_rejected :
   exists st', run (init false false true)
     [(0, 2, EConn); (1, 2, ENet (Some (MResponse true true 3))); (2, 2, ENet (Some MChallenge));
@@ -62,7 +60,7 @@ Proof. eexists. split; vm_compute; reflexivity. Qed.
 
 (* positive theorem: a sequence none of whose inputs is a listed crash input (Block tag; ghost-chain request from
    an entry without key, or with id u64::MAX in a build with overflow checks; the key list that exceeds the
-   quota; a verified golden-ticket transaction whose payload is not 97 bytes) never panics -- every other tag, undecodable buffers, unknown
+   quota) never panics -- every other tag, undecodable buffers, unknown
    connections, any order, any time stamps, before or after the handshake *)
 Theorem C11_dispatch_safe : forall st msgs,
   ~ Known_C11 st msgs -> forall site st', run st msgs <> Panic site st'.
@@ -113,7 +111,6 @@ Print Assumptions C11_model_sites_listed.
 Print Assumptions C11_no_panic_refuted_block_tag.
 Print Assumptions C11_no_panic_refuted_ghost_request.
 Print Assumptions C11_no_panic_refuted_key_list.
-Print Assumptions C11_no_panic_refuted_golden_ticket.
 Print Assumptions C11_dispatch_safe.
 Print Assumptions C11_known_inputs_panic.
 Print Assumptions C11_frame.
